@@ -146,7 +146,11 @@ CONDITIONS = [
 CONDITIONS.append(
     Cond(name="later", fn="later", params=[("now1", "int"), ("now2", "int"), ("nooa", "int"), ("slack", "int"), ("which", "int")],
          pre=["0 < now1 <= now2", "now2 <= now1 + 86000", "0 < nooa <= %d" % BIG, "now2 <= %d" % BIG, "0 <= slack <= 1000", "0 <= which <= 2"],
-         partitions={"quick": [{"which": w} for w in range(3)]}, timeout={"quick": 600, "thorough": 1200}, path_timeout=120,
+         partitions={"quick": [{"which": w} for w in range(3)] +
+                              # one fully concrete history per bound as well: a memo keyed on symbolic values makes CrossHair
+                              # runs non-deterministic (inconclusive) rather than refuted
+                              [{"which": w, "now1": 1000, "now2": 2000, "nooa": 1500, "slack": 0} for w in range(3)]},
+         timeout={"quick": 600, "thorough": 1200}, path_timeout=120,
          functions=["response.AuthnResponse.loads/verify (twice in one process)", "validate.validate_on_or_after"],
          bounds="two presentations of one response at symbolic instants now1 <= now2 (within a day), the bound under test being the Conditions, bearer or session NotOnOrAfter"))
 
